@@ -34,6 +34,7 @@ from vf import build, run, report
 BUDGET_A = {"quick": 400, "thorough": 10000}
 BUDGET_B = {"quick": 60, "thorough": 1500}
 BUDGET_FAULT = {"quick": 10, "thorough": 100}          # histories whose every write is failed
+BUDGET_C = {"quick": 40, "thorough": 1200}           # multi-threaded shared-channel histories
 BUDGET = {"quick": BUDGET_A["quick"] + BUDGET_B["quick"],
           "thorough": BUDGET_A["thorough"] + BUDGET_B["thorough"]}
 OPS_PER_HISTORY = 70
@@ -1201,6 +1202,151 @@ def build_shim(wdir):
     return out
 
 
+# ----------------------------------------------------------------------------------------------
+# (C) one cached channel shared by several threads: offline register check of the history
+
+def check_register_history(path, nblocks):
+    """Offline checker over the drv_iomt log.  Per block a multi-writer register with unique
+    written values.  Reports only what no linearization can explain (timestamps are taken
+    outside the calls, so every real-time precedence used here is a real one):
+      phantom   a read returns a value nobody wrote to that block
+      future    a read returns a write that was invoked after the read had returned
+      stale     a read (or the final state) returns write w although another write w2 to the
+                same block was invoked after w had returned and had itself returned before
+                the read was invoked (for the final state: before all threads were joined)
+      split     after quiescence the channel and the flushed device disagree
+      torn      a block whose words come from different writes, in the final state or in a read
+                that overlaps no write to that block
+    Returns (violations, facts)."""
+    import bisect
+    W = [dict() for _ in range(nblocks)]      # id -> (t0, t1)
+    R = [[] for _ in range(nblocks)]
+    F = {}
+    facts = {"reads": 0, "writes": 0, "errors": 0, "torn": 0, "overlapping_rw_pairs": 0,
+             "reads_that_observed_a_concurrent_write": 0, "reads_that_missed_cache_window": 0}
+    for ln in open(path):
+        p = ln.split()
+        if not p:
+            continue
+        if p[0] == "F":
+            F[int(p[1])] = (int(p[2], 16), int(p[3], 16))
+        elif p[0] == "T":
+            facts["torn"] = int(p[1])
+        elif p[0] == "E":
+            facts["errors"] += 1
+        else:
+            op, blk, vid, t0, t1, err = p[1], int(p[2]), int(p[3], 16), int(p[4]), int(p[5]), int(p[6])
+            if err:
+                facts["errors"] += 1
+                continue
+            if op == "W":
+                W[blk][vid] = (t0, t1)
+                facts["writes"] += 1
+            else:
+                R[blk].append((vid, t0, t1, op == "r"))
+                facts["reads"] += 1
+    viol = []
+    for blk in range(nblocks):
+        ws = W[blk]
+        ws[0] = (-2, -1)                          # the initial zeros
+        order = sorted(ws.items(), key=lambda kv: kv[1][0])
+        t0s = [kv[1][0] for kv in order]
+        sufmin = [0] * (len(order) + 1)
+        sufmin[-1] = float("inf")
+        for i in range(len(order) - 1, -1, -1):
+            sufmin[i] = min(sufmin[i + 1], order[i][1][1])
+
+        def overwritten_by(w_t1):
+            """earliest response time of a write invoked after w_t1"""
+            return sufmin[bisect.bisect_right(t0s, w_t1)]
+        for vid, t0, t1, mixed in R[blk]:
+            if mixed:
+                # the device read of a miss is not atomic against the write-out of a block that was
+                # written while the read was in flight; only a mixed block with no write to that
+                # block overlapping the read has no excuse
+                if any(a < t1 and b > t0 for a, b in ws.values()):
+                    facts["mixed_reads_overlapping_a_write"] = facts.get("mixed_reads_overlapping_a_write", 0) + 1
+                else:
+                    viol.append(("C17 shared channel: torn block", "block %d: a read that overlaps no write "
+                                 "returned a block whose words differ" % blk))
+                continue
+            if vid not in ws:
+                viol.append(("C17 shared channel: phantom read", "block %d: a read returned id %x that was never "
+                             "written to this block" % (blk, vid)))
+                continue
+            w0, w1 = ws[vid]
+            if w0 > t1:
+                viol.append(("C17 shared channel: read from the future", "block %d id %x" % (blk, vid)))
+            if w1 > t0:
+                facts["reads_that_observed_a_concurrent_write"] += 1
+            ob = overwritten_by(w1)
+            if ob < t0:
+                viol.append(("C17 shared channel: stale read (completed write lost)",
+                             "block %d: a read invoked at %d returned write %x (returned at %d) although a later "
+                             "write to the block had been invoked after that and returned at %d, before the read"
+                             % (blk, t0, vid, w1, ob)))
+        if blk in F:
+            via, dev = F[blk]
+            if via != dev:
+                viol.append(("C17 shared channel: cache and device disagree after flush",
+                             "block %d: channel returns %x, backing file holds %x" % (blk, via, dev)))
+            if via not in ws:
+                viol.append(("C17 shared channel: phantom final value", "block %d: %x" % (blk, via)))
+            elif overwritten_by(ws[via][1]) != float("inf"):
+                viol.append(("C17 shared channel: stale final state (completed write lost)",
+                             "block %d: after all threads were joined the channel holds write %x although a write "
+                             "invoked after it had returned completed too" % (blk, via)))
+    if facts["torn"]:
+        viol.append(("C17 shared channel: torn block", "%d blocks whose 8-byte words differ" % facts["torn"]))
+    if facts["errors"]:
+        viol.append(("C17 shared channel: I/O error", "%d calls failed" % facts["errors"]))
+    return viol, facts
+
+
+def _run_shared(arg):
+    root, variant, seed, idx = arg
+    b = build.Build(root, variant)
+    env = run.base_env(b)
+    if variant == "tsan":
+        env["TSAN_OPTIONS"] = "halt_on_error=0:exitcode=66:second_deadlock_stack=1"
+    drv = b.driver("drv_iomt")
+    rng = run.rng_for(seed, "C17-shared", idx)
+    bs = rng.choice([1024, 1024, 4096])
+    nblocks = rng.choice([6, 12, 24, 40])         # around the 8-entry cache: hits, evictions, misses
+    threads = rng.choice([2, 3, 4, 8])
+    nops = rng.choice([3000, 8000]) if variant != "tsan" else 1500
+    delay = rng.choice([0, 5, 30, 200])
+    out = {"idx": idx, "variant": variant, "cfg": dict(bs=bs, nblocks=nblocks, threads=threads, nops=nops, delay=delay),
+           "viol": [], "facts": None, "timeout": False}
+    with run.Work("C17mt") as w:
+        dev = os.path.join(w.dir, "dev.img")
+        with open(dev, "wb") as f:
+            f.truncate(nblocks * bs + (128 << 10))
+        log = os.path.join(w.dir, "hist.log")
+        r = run.run([drv, dev, str(bs), str(nblocks), str(threads), str(nops), str(rng.randrange(1 << 30)),
+                     str(delay), log], env=env, timeout=600)
+        if r.timed_out:
+            out["timeout"] = True
+            return out
+        if variant == "tsan" and "WARNING: ThreadSanitizer" in r.etext:
+            m = re.search(r"WARNING: ThreadSanitizer: ([^\n(]*)", r.etext)
+            fn = re.findall(r"#\d+ (\w+) ", r.etext)
+            out["viol"].append(("C17 shared channel: TSan %s in %s" % (m.group(1).strip() if m else "report",
+                                                                         next((x for x in fn if x.startswith(("unix_", "raw_", "reuse_", "find_", "flush_"))), "?")),
+                                r.etext[:1500]))
+        if r.rc not in (0, 66) or r.sig or not os.path.exists(log):
+            out["viol"].append(("C17 shared channel: driver died", "rc=%s sig=%s %s" % (r.rc, r.sig, r.etext[-500:])))
+            return out
+        v, facts = check_register_history(log, nblocks)
+        out["facts"] = facts
+        seen = set()
+        for k, wh in v:
+            if k not in seen:
+                seen.add(k)
+                out["viol"].append((k, wh + " | %d such reports in this history" % sum(1 for a, _ in v if a == k)))
+    return out
+
+
 def main(tier, seed, replay=None, scale=1.0):
     rep = report.Report(
         "C17", tier, seed, "exploration",
@@ -1220,6 +1366,8 @@ def main(tier, seed, replay=None, scale=1.0):
     drv_p = plain.driver("drv_io")
     drv_a = asan.driver("drv_io")
     tsan.driver("drv_rwbmap")
+    tsan.driver("drv_iomt")
+    plain.driver("drv_iomt")
     env_p = run.base_env(plain)
     env_a = run.base_env(asan)
     with run.Work("C17shim") as sw:
@@ -1430,6 +1578,33 @@ def _main(rep, tier, seed, replay, scale, plain, tsan, drv_p, drv_a, env_p, env_
                     seen_keys.add(key)
                     rep.violation(key, "%s | geometry: %s" % (what, gc),
                                   replay={"part": "Bh", "idx": r["idx"], "seed": it[1], "geo": r["geo"]})
+    # ---- (C) one cached channel shared by threads: register histories ----
+    if not replay or (replay and case.get("part") == "C"):
+        if replay:
+            items_c = [(plain.root if case["variant"] == "plain" else tsan.root, case["variant"], case["seed"], case["idx"])]
+        else:
+            nc = max(4, int(BUDGET_C[tier] * scale))
+            items_c = [((tsan.root, "tsan") if i % 4 == 3 else (plain.root, "plain")) + (seed, i) for i in range(nc)]
+        for it, r in zip(items_c, run.pmap(_run_shared, items_c)):
+            if r["timeout"]:
+                rep.note_inconclusive("shared-channel history idx=%d timed out" % r["idx"])
+                rep.case(None)
+                continue
+            f = r["facts"] or {}
+            rep.count("C_histories_" + r["variant"])
+            rep.count("C_reads", f.get("reads", 0))
+            rep.count("C_writes", f.get("writes", 0))
+            rep.count("C_reads_that_observed_a_concurrent_write", f.get("reads_that_observed_a_concurrent_write", 0))
+            rep.add("C_configs", json.dumps(r["cfg"], sort_keys=True))
+            rep.case(json.dumps(["C", r["cfg"]], sort_keys=True)
+                     if f.get("reads_that_observed_a_concurrent_write", 0) >= 1 else None)
+            for key, what in r["viol"]:
+                if key in seen_keys:
+                    rep.count("C_repeat_violations")
+                    continue
+                seen_keys.add(key)
+                rep.violation(key, "%s | %s" % (what, r["cfg"]),
+                              replay={"part": "C", "idx": r["idx"], "seed": it[2], "variant": r["variant"]})
     rep.assumptions = [
         "the offset option is set right after open, before any I/O (as ext2fs_open2 does); "
         "cache=off and write-through are channel configurations, not toggled inside a history",
